@@ -41,6 +41,15 @@ func capacityExact(v ssa.Value) (bool, string) {
 		}
 		return false, "re-slice without capacity limit"
 	case *ssa.Call:
+		// a helper that makes the copy: every slice it returns must be capacity-exact
+		if vals, _, h := helperResult(x); h != nil && len(vals) > 0 {
+			for _, rv := range vals {
+				if ok, why := capacityExact(rv); !ok {
+					return false, "result of " + core.FuncName(h) + ": " + why
+				}
+			}
+			return true, "capacity-exact copy made by " + core.FuncName(h)
+		}
 		switch core.CalleeName(x.Common()) {
 		case "slices.Clip":
 			return true, "slices.Clip"
